@@ -159,8 +159,23 @@ def run(F, R, tier):
                         if owner.startswith("http::response::Parts"):
                             R.fail("C14.R2", R.key("C14.R2", FWD, "head-field-write"), "%s:%s" % (fw["file"], s["line"]),
                                    "upstream response head field `%s` is overwritten" % fld)
-    mapper = F.fns.get(FWD + "::{closure#0}::{closure#0}")
-    data_cl = F.fns.get(FWD + "::{closure#0}::{closure#0}::{closure#0}")
+    # the frame mapper is whatever closure is handed to map_frame() in forward_response, the per-byte closure whatever closure that
+    # mapper (or a helper analysed in place inside it) hands to Iterator::map - found by role, not by their position among the closures
+    def closure_arg(fn_, *callees):
+        if fn_ is None:
+            return None
+        Bx = mir.Body(fn_, F)
+        for bi_, w_, r_, t_ in Bx.calls_named(*callees):
+            for a_ in t_["args"][1:]:
+                for o_ in Bx.origins(a_):
+                    if o_[0] == "agg" and o_[1] in F.fns and F.fns[o_[1]]["kind"] == "Closure":
+                        return F.fns[o_[1]]
+        return None
+    from rules.c02 import descendants
+    mapper = None
+    for f_ in [F.body_of(FWD)] + descendants(F, (F.body_of(FWD) or {"id": FWD})["id"]):
+        mapper = mapper or closure_arg(f_, "BodyExt::map_frame")
+    data_cl = closure_arg(mapper, "Iterator::map")
     if not mapper or not data_cl:
         R.fail("C14.R2", "C14.R2:anchor-missing:frame-mapper", "-", "anchor-missing=%s::{closure#0}::{closure#0}[::{closure#0}]" % FWD)
     else:
